@@ -63,8 +63,8 @@ type Outer struct {
 	S Inner  `json:"s"`
 }
 
-// Dep has pointer fields and interdependency rules (model kind "objdep"): a conflicts with b, c is at most 10,
-// d is required unless b is given.
+// Dep has pointer fields and interdependency rules (model kind "objdep"): a conflicts with c and b, c is at most
+// 10, d is required unless b or a is given.
 type Dep struct {
 	A *int64 `json:"a"`
 	B *int64 `json:"b"`
@@ -176,6 +176,8 @@ var ckinds = map[string]kindInfo{
 	"objnest":       {"objnest", []string{"fresh", "rebuilt"}},
 	"chain":         {"chain", []string{"fresh", "rebuilt"}},
 	"disabled":      {"disabled", []string{"fresh", "rebuilt"}},
+	"any_top":       {"anylist", []string{"fresh", "rebuilt"}},
+	"any_prop":      {"anylist", []string{"fresh", "rebuilt"}},
 	"compat2":       {"compat2", []string{"fresh", "rebuilt"}},
 	"mapcoll":       {"mapcoll", []string{"fresh", "rebuilt"}},
 	"anycoll":       {"mapcoll", []string{"fresh", "rebuilt"}},
@@ -251,6 +253,11 @@ func buildScope(ckind string) (*schema.ScopeSchema, error) {
 			"s": prop(schema.NewRefSchema("inner", nil), schema.PointerTo(`{"a":5}`)),
 		})
 		return schema.NewScopeSchema(root, inner), nil
+	case "any_top":
+		return wrap(schema.NewAnySchema()), nil
+	case "any_prop":
+		// an object with an any-typed property; the operations are issued on the object
+		return schema.NewScopeSchema(schema.NewObjectSchema("root", map[string]*schema.PropertySchema{"p": prop(schema.NewAnySchema(), nil)})), nil
 	case "disabled":
 		// root{settings: ref S}, S{legacy: disabled WITHOUT a reason (Disable() always gives one: the fields are
 		// set directly, as a description with disabled: true and no disabled_reason does), keep}
@@ -294,10 +301,11 @@ func buildScope(ckind string) (*schema.ScopeSchema, error) {
 		return schema.NewScopeSchema(root, mid, leaf), nil
 	case "objdep":
 		return schema.NewScopeSchema(schema.NewStructMappedObjectSchema[Dep]("root", map[string]*schema.PropertySchema{
-			"a": schema.NewPropertySchema(intT(), nil, false, nil, nil, []string{"b"}, nil, nil),
+			// the rule lists have several entries, declared in NON-alphabetical order
+			"a": schema.NewPropertySchema(intT(), nil, false, nil, nil, []string{"c", "b"}, nil, nil),
 			"b": prop(intT(), nil),
 			"c": prop(schema.NewIntSchema(nil, schema.PointerTo(int64(10)), nil), nil),
-			"d": schema.NewPropertySchema(intT(), nil, false, nil, []string{"b"}, nil, nil, nil),
+			"d": schema.NewPropertySchema(intT(), nil, false, nil, []string{"b", "a"}, nil, nil, nil),
 		})), nil
 	case "mapcoll":
 		return wrap(schema.NewMapSchema(intT(), schema.NewStringSchema(nil, nil, nil), nil, nil)), nil
@@ -418,6 +426,12 @@ func build(ckind, origin string) (*instance, error) {
 	switch info.kind {
 	case "objmap", "objstruct", "objdep", "objnest", "chain", "compat2", "disabled", "meta":
 		in.target = s
+	case "anylist":
+		if ckind == "any_prop" {
+			in.target = s
+		} else {
+			in.target = targetOf(s)
+		}
 	default:
 		in.target = targetOf(s)
 	}
